@@ -154,3 +154,52 @@ func VP_C08_unpack_compressed() {
 	p.UnPack(bytes.NewReader(stream), t)
 	vp.Cover("end")
 }
+
+// reflect-driven combinators on arbitrary bytes: Ary with every prefix type
+// into nil / used destinations, and NBT fields.
+func VP_C08_ary() {
+	n := vp.Choice(vpC08N() + 1)
+	b := vp.Bytes(n)
+	vp.SizeBound(n + 2)
+	r := bytes.NewReader(b)
+	var dst []VarInt
+	if vp.Choice(2) == 1 {
+		dst = []VarInt{1, 2, 3}[:1]
+	}
+	switch vp.Choice(5) {
+	case 0:
+		Ary[VarInt]{Ary: &dst}.ReadFrom(r)
+	case 1:
+		Ary[Byte]{Ary: &dst}.ReadFrom(r)
+	case 2:
+		Ary[Short]{Ary: &dst}.ReadFrom(r)
+	case 3:
+		Ary[Int]{Ary: &dst}.ReadFrom(r)
+	default:
+		var strs []String
+		Ary[VarInt]{Ary: &strs}.ReadFrom(r)
+	}
+	vp.Cover("end")
+}
+
+func VP_C08_nbtfield() {
+	n := vp.Choice(vpC08N() + 1)
+	b := vp.Bytes(n)
+	vp.SizeBound(n + 2)
+	r := bytes.NewReader(b)
+	switch vp.Choice(3) {
+	case 0:
+		var v any
+		NBTField{V: &v}.ReadFrom(r)
+	case 1:
+		var v struct {
+			A int32  `nbt:"a"`
+			S string `nbt:"s"`
+		}
+		NBTField{V: &v, AllowUnknownFields: vp.Bool()}.ReadFrom(r)
+	default:
+		var v map[string]int32
+		NBT(&v).ReadFrom(r)
+	}
+	vp.Cover("end")
+}
